@@ -104,21 +104,36 @@ def check(model, rep, tier):
   va = cls.methods.get('visit_arg')
   g = pycfg.CFG(va.node)
   adds = _adds(va.node, 'bound')
-  w = {i: 1 for i in range(len(g.nodes)) if any(c in adds for c in pycfg.calls_at(g, i))}
+  add_nodes = [i for i in range(len(g.nodes)) if any(
+      c in adds for c in pycfg.calls_at(g, i))]
+  w = {i: 1 for i in add_nodes}
   bad = []
+  allowed = {('not anno.hasanno(node, anno.Basic.QN)', 'T'),
+             ('self._track_annotations_only', 'T')}
   for ri in g.nodes_where(lambda k, a: k == 'return'):
     rng = g.count_range(w, ends={ri}, skip_labels=())
     if rng and rng[0] == 0:
       mand = [(core.norm(g.nodes[t][1]), l) for t, l in g.mandatory_edges(ri)]
-      if mand != [('not anno.hasanno(node, anno.Basic.QN)', 'T')]:
+      if not mand or not set(mand) & allowed or not set(mand) <= allowed | {
+          ('self._track_annotations_only', 'F')}:
         bad.append(mand)
   mp = [c for c in ast.walk(va.node) if isinstance(c, ast.Call) and
         core.norm(c.func) == 'self.scope.mark_param']
-  rep.check(not bad and len(mp) == 1, 'BIND-EXH',
+  rep.check(not bad and len(mp) == 1 and len(add_nodes) == 1, 'BIND-EXH',
             '%s:ActivityAnalyzer:visit_arg' % ACT,
-            'a parameter must be recorded as bound and marked as parameter on '
-            'every path (both visiting passes)', {'paths_without_binding': bad},
-            line=va.node.lineno, witness='lambda lscope: ... / def f(k): ...')
+            'in the declaration pass a parameter must be recorded as bound and '
+            'marked as parameter on every path', {'paths_without_binding': bad},
+            line=va.node.lineno, witness='def f(k): ...')
+  leak = True
+  if add_nodes:
+    mand = [(core.norm(g.nodes[t][1]), l) for t, l in g.mandatory_edges(add_nodes[0])]
+    leak = ('self._track_annotations_only', 'F') not in mand
+  rep.check(not leak, 'BIND-EXH', '%s:ActivityAnalyzer:visit_arg:not-in-defining-scope' % ACT,
+            'the annotations pass runs in the scope that *defines* the function: '
+            'recording the parameter there makes a nested function\'s '
+            'parameter names bound names of the enclosing function, hiding its '
+            'own uses of those names', line=va.node.lineno,
+            witness='def outer(c, y): def f(): def g(y): return y; return g(1) + y')
   for kind in SYMBOL_NODES:
     h = cls.methods.get('visit_' + kind)
     ok = h is not None
@@ -204,6 +219,26 @@ def check(model, rep, tier):
   rep.check(ok, 'CTX-TABLE', '%s:augassign-flag' % vaug.site,
             'only the target of an augmented assignment is visited with the '
             '"also read" flag set', line=vaug.node.lineno)
+
+  # a bare annotation declares, it does not assign
+  vann = cls.methods.get('visit_AnnAssign')
+  ok = vann is not None
+  if ok:
+    g = pycfg.CFG(vann.node)
+    tv = [i for i in range(len(g.nodes)) if any(
+        core.norm(c.func) == 'self.visit' and core.norm(c.args[0]).endswith('.target')
+        for c in pycfg.calls_at(g, i))]
+    ok = True
+    for i in tv:
+      mand = [(core.norm(g.nodes[t][1]), l) for t, l in g.mandatory_edges(i)]
+      if not any(t.endswith('.value is not None') and l == 'T' for t, l in mand):
+        ok = False
+  rep.check(ok, 'CTX-TABLE', '%s:ActivityAnalyzer:visit_AnnAssign:declaration-is-not-assignment' % ACT,
+            'the target of an annotated assignment is tracked as a store even '
+            'when there is no value (`n: int`): the declaration then counts as a '
+            'modification and kills n in liveness / reaching definitions',
+            line=vann.node.lineno if vann else None,
+            witness='n = 7; if c: n = 1; n: int; return n  (1 original, 7 converted)')
 
   # ---------------------------------------------------------------- PARAMS
   vd = cls.methods.get('_visit_arg_declarations')
